@@ -37,7 +37,7 @@ theorem roundStoreBcast_none (s : State) (m : Msg) (h : roundStoreBcast s m = no
     · next hf => exact Or.inr ⟨c, hd, hf⟩
     · simp at h
 
-theorem verifyMessage_none (s : State) (m : Msg) (h : verifyMessage s m = none) :
+theorem verifyMessage_bad (s : State) (m : Msg) (h : verifyMessage s m = .bad) :
     (curSpec s).recvP = false ∨ badP2P m := by
   unfold verifyMessage at h
   split at h
@@ -45,35 +45,41 @@ theorem verifyMessage_none (s : State) (m : Msg) (h : verifyMessage s m = none) 
   · split at h
     · simp at h
     · split at h
-      · next hp => left; simpa using hp
-      · exact Or.inr (roundStoreP2P_none s m h)
+      · simp at h
+      · split at h
+        · next hp => left; simpa using hp
+        · split at h
+          · next hr => exact Or.inr (roundStoreP2P_none s m hr)
+          · simp at h
 
 theorem curSpec_sameCore {s s' : State} (h : SameCore s s') : curSpec s' = curSpec s := by
   unfold curSpec
   rw [← h.1, ← h.2.1]
 
-theorem verifyBroadcastMessage_none (s : State) (m : Msg) (h : verifyBroadcastMessage s m = none) :
+theorem verifyBroadcastMessage_bad (s : State) (m : Msg) (h : verifyBroadcastMessage s m = .bad) :
     (curSpec s).recvB = false ∨ badB m ∨ ∃ p, lookup s.msgs m.rnd m.frm = some p ∧ badP2P p := by
   unfold verifyBroadcastMessage at h
   split at h
   · simp at h
   · split at h
-    · next hb => left; simpa using hb
+    · simp at h
     · split at h
-      · next h1 => exact Or.inr (Or.inl (roundStoreBcast_none s m h1))
-      · next s1 h1 =>
-        have sc := roundStoreBcast_sameCore s s1 m h1
-        split at h
-        · simp at h
-        · next hp =>
+      · next hb => left; simpa using hb
+      · split at h
+        · next h1 => exact Or.inr (Or.inl (roundStoreBcast_none s m h1))
+        · next s1 h1 =>
+          have sc := roundStoreBcast_sameCore s s1 m h1
           split at h
           · simp at h
-          · next p hl =>
-            right; right
-            refine ⟨p, by rw [← sc.2.2.2.2.1] at hl; exact hl, ?_⟩
-            rcases verifyMessage_none s1 p h with h' | h'
-            · simp [h'] at hp
-            · exact h'
+          · next hp =>
+            split at h
+            · simp at h
+            · next p hl =>
+              right; right
+              refine ⟨p, by rw [← sc.2.2.2.2.1] at hl; exact hl, ?_⟩
+              rcases verifyMessage_bad s1 p h with h' | h'
+              · simp [h'] at hp
+              · exact h'
 
 /-! ### queue keys -/
 
@@ -201,14 +207,14 @@ theorem lookup_keys (q : List (Nat × Bytes × Msg)) (r : Nat) (id : Bytes) (m :
 
 /-- a broadcast message of the current round fails: its sender sent a deviating message -/
 theorem bcast_fail_witness (s st : State) (hsc : SameCore s st) (qk : QueueKeys s) (m : Msg) (id : Bytes)
-    (hl : lookup st.bc s.cur id = some m) (hv : verifyBroadcastMessage st m = none) :
+    (hl : lookup st.bc s.cur id = some m) (hv : verifyBroadcastMessage st m = .bad) :
     Witness s (curSpec s) m.frm := by
   have hbc : st.bc = s.bc := hsc.2.2.2.2.2.1.symm
   have hms : st.msgs = s.msgs := hsc.2.2.2.2.1.symm
   rw [hbc] at hl
   obtain ⟨e, he, rfl, hr, hid⟩ := lookup_keys _ _ _ _ hl
   have k := qk.2 e he
-  rcases verifyBroadcastMessage_none st _ hv with h | h | ⟨p, hp, hb⟩
+  rcases verifyBroadcastMessage_bad st _ hv with h | h | ⟨p, hp, hb⟩
   · exact ⟨e.2.2, Or.inr ⟨e, he, rfl⟩, rfl, by rw [← k.1, hr], Or.inr ⟨k.2.2, Or.inl (curSpec_sameCore hsc ▸ h)⟩⟩
   · exact ⟨e.2.2, Or.inr ⟨e, he, rfl⟩, rfl, by rw [← k.1, hr], Or.inr ⟨k.2.2, Or.inr h⟩⟩
   · rw [hms] at hp
@@ -220,57 +226,63 @@ theorem bcast_fail_witness (s st : State) (hsc : SameCore s st) (qk : QueueKeys 
 
 /-- a p2p message of the current round fails: its sender sent a deviating message -/
 theorem p2p_fail_witness (s st : State) (hsc : SameCore s st) (qk : QueueKeys s) (m : Msg) (id : Bytes)
-    (hl : lookup st.msgs s.cur id = some m) (hv : verifyMessage st m = none) :
+    (hl : lookup st.msgs s.cur id = some m) (hv : verifyMessage st m = .bad) :
     Witness s (curSpec s) m.frm := by
   have hms : st.msgs = s.msgs := hsc.2.2.2.2.1.symm
   rw [hms] at hl
   obtain ⟨e, he, rfl, hr, hid⟩ := lookup_keys _ _ _ _ hl
   have k := qk.1 e he
   refine ⟨e.2.2, Or.inl ⟨e, he, rfl⟩, rfl, by rw [← k.1, hr], Or.inl ⟨k.2.2, ?_⟩⟩
-  rcases verifyMessage_none st _ hv with h | h
+  rcases verifyMessage_bad st _ hv with h | h
   · exact Or.inl (curSpec_sameCore hsc ▸ h)
   · exact Or.inr h
 
-theorem replayFold_culprit (s : State) (qk : QueueKeys s) (ids : List Bytes) (acc : State × Option Bytes)
-    (hacc : SameCore s acc.1) (hnone : acc.2 = none ∨ ∃ c, acc.2 = some c ∧ Witness s (curSpec s) c)
-    (s5 : State) (c : Bytes) (h : ids.foldl (replayStep (curSpec s) s.cur) acc = (s5, some c)) :
+theorem replayFold_culprit (s : State) (qk : QueueKeys s) (ids : List Bytes) (acc : State × Option Fail)
+    (hacc : SameCore s acc.1) (hnone : ∀ c, acc.2 = some (.culprit c) → Witness s (curSpec s) c)
+    (s5 : State) (c : Bytes) (h : ids.foldl (replayStep (curSpec s) s.cur) acc = (s5, some (.culprit c))) :
     Witness s (curSpec s) c := by
   induction ids generalizing acc with
   | nil =>
     simp only [List.foldl_nil] at h
-    rcases hnone with hn | ⟨c', hc', w⟩
-    · rw [h] at hn; simp at hn
-    · rw [h] at hc'; simp at hc'; subst hc'; exact w
+    exact hnone c (by rw [h])
   | cons id rest ih =>
     rw [List.foldl_cons] at h
     apply ih (replayStep (curSpec s) s.cur acc id) (replayStep_sameCore _ _ acc id s hacc) _ h
     obtain ⟨st, o⟩ := acc
     cases o with
-    | some c' =>
-      rcases hnone with hn | ⟨c'', hc'', w⟩
-      · simp at hn
-      · right; exact ⟨c'', by simpa [replayStep] using hc'', w⟩
+    | some f =>
+      intro c' hc'
+      exact hnone c' (by simpa [replayStep] using hc')
     | none =>
-      simp only [replayStep]
-      split
-      · split
-        · left; rfl
-        · split
-          · left; rfl
+      intro c' hc'
+      simp only [replayStep] at hc'
+      split at hc'
+      · split at hc'
+        · simp at hc'
+        · split at hc'
+          · simp at hc'
           · next m hl =>
-            split
-            · next hv => right; exact ⟨m.frm, rfl, bcast_fail_witness s st hacc qk m id hl hv⟩
-            · left; rfl
-      · split
-        · left; rfl
+            cases hv : verifyBroadcastMessage st m with
+            | ok st' => simp [failOf, hv] at hc'
+            | echo => simp [failOf, hv] at hc'
+            | bad =>
+              simp only [failOf, hv, Option.some.injEq, Fail.culprit.injEq] at hc'
+              subst hc'
+              exact bcast_fail_witness s st hacc qk m id hl hv
+      · split at hc'
+        · simp at hc'
         · next m hl =>
-          split
-          · next hv => right; exact ⟨m.frm, rfl, p2p_fail_witness s st hacc qk m id hl hv⟩
-          · left; rfl
+          cases hv : verifyMessage st m with
+          | ok st' => simp [failOf, hv] at hc'
+          | echo => simp [failOf, hv] at hc'
+          | bad =>
+            simp only [failOf, hv, Option.some.injEq, Fail.culprit.injEq] at hc'
+            subst hc'
+            exact p2p_fail_witness s st hacc qk m id hl hv
 
 theorem replayQueued_culprit (s : State) (qk : QueueKeys s) (s5 : State) (c : Bytes)
-    (h : replayQueued s = (s5, some c)) : Witness s (curSpec s) c :=
-  replayFold_culprit s qk s.sc.ids (s, none) (SameCore.refl s) (Or.inl rfl) s5 c h
+    (h : replayQueued s = (s5, some (.culprit c))) : Witness s (curSpec s) c :=
+  replayFold_culprit s qk s.sc.ids (s, none) (SameCore.refl s) (fun c h => by simp at h) s5 c h
 
 /-- whenever the error is a message failure blamed on `f`, a deviating message from `f` for the current
     round is in the queues -/
@@ -315,10 +327,13 @@ theorem finalizeStep_blameOk (H : Bytes → Bytes) (s : State) (l : Live s) (qk 
         split
         · simp only [Step.st]; exact none_ok _ l3.2.1
         · split
-          · next s5 culprit hq =>
+          · next s5 fl hq =>
             simp only [Step.st]
             intro f hf
-            simp only [abort, Option.some.injEq, ErrKind.msgFail.injEq] at hf
+            cases fl with
+            | echo => simp [abort, errOf] at hf
+            | culprit culprit =>
+            simp only [abort, errOf, Option.some.injEq, ErrKind.msgFail.injEq] at hf
             subst hf
             have w := replayQueued_culprit (enter (sendAll (fillBh H s) (emitFor (fillBh H s) nx)) i nx) q3 s5 culprit hq
             have sc5 := replayQueued_sameCore (enter (sendAll (fillBh H s) (emitFor (fillBh H s) nx)) i nx)
@@ -411,6 +426,7 @@ theorem accept_blameOk (H : Bytes → Bytes) (s : State) (m : Msg) (l : Live s) 
           · next hb =>
             exact p2p_fail_witness (store s m) (store s m) (SameCore.refl _) q1 m m.frm
               (by rw [hcur']; exact sl.2 (by simpa using hb)) hv
+        · intro f hf; simp [abort] at hf
         · next s2 hv =>
           apply finalize_blameOk
           · split at hv
@@ -458,7 +474,7 @@ theorem finalizeStep_noPeerStop (H : Bytes → Bytes) (s : State) (l : Live s) :
         split
         · simp only [Step.st]; exact none_ok _ l3.2.1
         · split
-          · simp only [Step.st]; simp [NoPeerStop, abort]
+          · next s5 fl hq => simp only [Step.st]; cases fl <;> simp [NoPeerStop, abort, errOf]
           · next s5 hq =>
             simp only [Step.st]
             have sc5 := replayQueued_sameCore (enter (sendAll (fillBh H s) (emitFor (fillBh H s) nx)) i nx)
